@@ -24,7 +24,9 @@
    reading when no request holds a limiter, and keeps the clock fixed while a collection is
    active, so every order gives the same observables.
 
-   Executable definitions only. *)
+   Executable definitions first; the last section (audit 2) proves that the interpreter only
+   ever moves the machine by Registry.step Head: every state it reaches is reached by a
+   schedule of [run Head] (run_ops_reachable, run_overlap_accepted_reachable). *)
 From Coq Require Import List ZArith Bool Arith.
 From Verif Require Import C09.Model C09.Registry.
 Import ListNotations.
@@ -404,3 +406,192 @@ Definition run_overlap (k : case_overlap) : option overlap_out :=
           then None else Some (sts, vs, cs)
       end
   end.
+
+(* ---------------------------------------------------------------- reachability *)
+(* Every change of o_cfg made by adv_req / adv_col / do_op is a machine_step, i.e. one
+   Registry.step Head; parking, starting and clock setting leave o_cfg alone. *)
+
+Definition reach (c c' : config) : Prop := exists sch, run Head c sch = Some c'.
+
+Lemma run_app v a : forall c b,
+  run v c (a ++ b) = match run v c a with Some c1 => run v c1 b | None => None end.
+Proof.
+  induction a as [|l r IH]; intros c b; cbn [app run]; [reflexivity|].
+  destruct (step v c l); [apply IH | reflexivity].
+Qed.
+
+Lemma reach_refl c : reach c c.
+Proof. exists []. reflexivity. Qed.
+
+Lemma reach_trans a b c : reach a b -> reach b c -> reach a c.
+Proof. intros [s1 H1] [s2 H2]. exists (s1 ++ s2). rewrite run_app, H1. exact H2. Qed.
+
+Lemma machine_step_reach o l o' : machine_step o l = Some o' -> reach (o_cfg o) (o_cfg o').
+Proof.
+  unfold machine_step. destruct (step Head (o_cfg o) l) as [c|] eqn:E; [|discriminate].
+  intros [= <-]. exists [l]. cbn [run]. rewrite E. reflexivity.
+Qed.
+
+Lemma adv_req_reach o r v o' : adv_req o r v = Some o' -> reach (o_cfg o) (o_cfg o').
+Proof.
+  unfold adv_req. destruct (_ || _); [discriminate|].
+  destruct (req_pc (o_cfg o) r) as [[| |p|vd]|]; try discriminate.
+  - apply machine_step_reach.
+  - destruct (_ && _); [intros [= <-]; exact (reach_refl _) | apply machine_step_reach].
+  - destruct (v_parkG v); [intros [= <-]; exact (reach_refl _)|].
+    destruct (is_held o p); [discriminate|].
+    destruct (v_parkC v); [intros [= <-]; exact (reach_refl _) | apply machine_step_reach].
+Qed.
+
+Lemma adv_col_reach o j w o' : adv_col o j w = Some o' -> reach (o_cfg o) (o_cfg o').
+Proof.
+  unfold adv_col. cbv zeta. destruct (_ || _); [discriminate|].
+  destruct (col_pc (o_cfg o) _) as [[| |todo acc idle|acc idle|out]|]; try discriminate;
+    try apply machine_step_reach.
+  destruct todo as [|x todo']; [apply machine_step_reach|].
+  destruct (first_free o (x :: todo') 0) as [pick|]; [|discriminate].
+  match goal with |- context [if ?b then _ else _] => destruct b end; [apply machine_step_reach|].
+  destruct (existsb _ _); [intros [= <-]; exact (reach_refl _)|].
+  destruct (machine_step o _) as [o1|] eqn:E; [|discriminate]. cbn [option_map]. intros [= <-].
+  exact (machine_step_reach _ _ _ E).
+Qed.
+
+Lemma first_move_req_reach o rs : forall r o',
+  first_move_req o rs r = Some o' -> reach (o_cfg o) (o_cfg o').
+Proof.
+  induction rs as [|v rest IH]; intros r o'; cbn [first_move_req]; [discriminate|].
+  destruct (adv_req o r v) as [o1|] eqn:E; [|apply IH].
+  intros [= <-]. exact (adv_req_reach _ _ _ _ E).
+Qed.
+
+Lemma first_move_col_reach o cs : forall j o',
+  first_move_col o cs j = Some o' -> reach (o_cfg o) (o_cfg o').
+Proof.
+  induction cs as [|w rest IH]; intros j o'; cbn [first_move_col]; [discriminate|].
+  destruct (adv_col o j w) as [o1|] eqn:E; [|apply IH].
+  intros [= <-]. exact (adv_col_reach _ _ _ _ E).
+Qed.
+
+Lemma settle_reach f : forall o o', settle f o = Some o' -> reach (o_cfg o) (o_cfg o').
+Proof.
+  induction f as [|f IH]; intros o o'; cbn [settle]; [discriminate|].
+  destruct (first_move_req o (o_rs o) 0) as [o1|] eqn:E1.
+  - intros H. eapply reach_trans; [exact (first_move_req_reach _ _ _ _ E1) | exact (IH _ _ H)].
+  - destruct (first_move_col o (o_cs o) 0) as [o1|] eqn:E2.
+    + intros H. eapply reach_trans; [exact (first_move_col_reach _ _ _ _ E2) | exact (IH _ _ H)].
+    + intros [= <-]. apply reach_refl.
+Qed.
+
+Lemma do_op_reach o op o' : do_op o op = Some o' -> reach (o_cfg o) (o_cfg o').
+Proof.
+  destruct op as [r|r|j|j|t]; cbn [do_op].
+  - destruct (nth_error (o_rs o) r) as [v|]; [|discriminate].
+    destruct (v_started v); [discriminate|]. intros [= <-]. exact (reach_refl _).
+  - destruct (nth_error (o_rs o) r) as [v|]; [|discriminate]. cbv zeta.
+    destruct (_ || _); [intros [= <-]; exact (reach_refl _)|].
+    destruct (v_at v =? 2); [|discriminate].
+    destruct (machine_step o _) as [o1|] eqn:E; [|discriminate]. cbn [option_map]. intros [= <-].
+    exact (machine_step_reach _ _ _ E).
+  - destruct (nth_error (o_cs o) j) as [w|]; [|discriminate].
+    destruct (w_started w); [discriminate|]. intros [= <-]. exact (reach_refl _).
+  - destruct (nth_error (o_cs o) j) as [w|]; [|discriminate].
+    destruct (w_parked w); [|discriminate].
+    destruct (machine_step o _) as [o1|] eqn:E; [|discriminate]. cbn [option_map]. intros [= <-].
+    exact (machine_step_reach _ _ _ E).
+  - intros [= <-]. exact (reach_refl _).
+Qed.
+
+(* every state the interpreter of the forced schedules reaches is a state of the registry
+   machine: some schedule of Registry.run Head leads from the start configuration to it *)
+Lemma run_ops_reachable ops : forall o0 o sts,
+  run_ops o0 ops = Some (o, sts) -> exists sch, run Head (o_cfg o0) sch = Some (o_cfg o).
+Proof.
+  induction ops as [|op rest IH]; intros o0 o sts; cbn [run_ops].
+  - intros [= <- _]. apply reach_refl.
+  - destruct (do_op o0 op) as [o1|] eqn:E1; [|discriminate].
+    destruct (settle fuel o1) as [o2|] eqn:E2; [|discriminate].
+    destruct (run_ops o2 rest) as [[o3 sts3]|] eqn:E3; [|discriminate].
+    intros [= <- _].
+    apply (reach_trans _ (o_cfg o1)); [exact (do_op_reach _ _ _ E1)|].
+    apply (reach_trans _ (o_cfg o2)); [exact (settle_reach _ _ _ E2)|].
+    exact (IH _ _ _ E3).
+Qed.
+
+(* the threads and the start state of a case, as run_overlap builds them *)
+Definition overlap_kt (k : case_overlap) : list (option (thread * remedy)) :=
+  map (key_thread (map remedy_of (ov_remedies k))) (ov_keys k).
+Definition overlap_threads (k : case_overlap) : option (list thread) :=
+  option_map (fun reqs => reqs ++ map (fun _ => TCol CNew) (ov_cols k))
+             (build_threads (overlap_kt k) (ov_reqs k)).
+
+
+Definition initial_entry (x : option (thread * remedy)) : Prop :=
+  match x with Some (t, _) => initial t = true | None => True end.
+
+Lemma build_threads_initial kt reqs : Forall initial_entry kt -> forall ts,
+  build_threads kt reqs = Some ts -> forallb initial ts = true.
+Proof.
+  intros HK. induction reqs as [|[[[i ph] pg] pc] rest IH]; intros ts; cbn [build_threads].
+  - intros [= <-]. reflexivity.
+  - destruct (nth_error kt i) as [[[t rm]|]|] eqn:Ei; try discriminate.
+    destruct (build_threads kt rest) as [ts'|]; [|discriminate]. intros [= <-].
+    cbn [forallb]. rewrite (IH ts' eq_refl), andb_true_r.
+    rewrite Forall_forall in HK. exact (HK _ (nth_error_In _ _ Ei)).
+Qed.
+
+Lemma overlap_kt_initial k : Forall initial_entry (overlap_kt k).
+Proof.
+  unfold overlap_kt. apply Forall_forall. intros x HIn. apply in_map_iff in HIn.
+  destruct HIn as ([i hs] & <- & _). unfold key_thread, initial_entry.
+  destruct (nth_error _ i) as [r|]; [|exact I].
+  destruct (plugin_pre r hs); [exact I | reflexivity].
+Qed.
+
+Lemma overlap_threads_initial k ts : overlap_threads k = Some ts -> forallb initial ts = true.
+Proof.
+  unfold overlap_threads. destruct (build_threads _ _) as [reqs|] eqn:E; [|discriminate].
+  cbn [option_map]. intros [= <-]. rewrite forallb_app.
+  rewrite (build_threads_initial _ _ (overlap_kt_initial k) _ E). cbn [andb].
+  induction (ov_cols k); [reflexivity | exact IHl].
+Qed.
+
+(* a case the suite accepts (run_overlap = None) shows the verdicts and counters of a
+   configuration that a schedule of the registry machine reaches from the initial threads *)
+Lemma run_overlap_accepted_reachable k : run_overlap k = None ->
+  exists ts sch c',
+    overlap_threads k = Some ts /\ forallb initial ts = true /\
+    run Head (init_config ts) sch = Some c' /\
+    zlist_eqb (verdicts_of c' (overlap_kt k) (ov_reqs k) 0) (ov_verdicts k) = true /\
+    all2 counters_eqb (counters_of c' (length (ov_cols k)) (length (ov_reqs k)))
+         (ov_counters k) = true.
+Proof.
+  unfold run_overlap. cbv zeta. fold (overlap_kt k).
+  destruct (build_threads (overlap_kt k) (ov_reqs k)) as [reqs|] eqn:EB; [|discriminate].
+  destruct (run_ops _ _) as [[o sts]|] eqn:ER; [|discriminate].
+  destruct (_ && _) eqn:EC; [|discriminate]. intros _.
+  apply andb_true_iff in EC. destruct EC as [EC E3]. apply andb_true_iff in EC. destruct EC as [_ E2].
+  assert (ET : overlap_threads k = Some (reqs ++ map (fun _ => TCol CNew) (ov_cols k))).
+  { unfold overlap_threads. rewrite EB. reflexivity. }
+  destruct (run_ops_reachable _ _ _ _ ER) as [sch HS]. cbn [o_cfg] in HS.
+  eexists. exists sch, (o_cfg o). split; [exact ET|]. split; [exact (overlap_threads_initial k _ ET)|].
+  split; [exact HS|]. split; assumption.
+Qed.
+
+
+(* a small accepted case (used by Property.C09_overlap_example): two ungrouped remedies of 1
+   request per second; request 0 (first remedy) is parked in its clock reading at the base
+   instant, the clock moves on by 0.5 s, request 1 (second remedy) runs, request 0 is released
+   and its region runs with the reading it took, request 2 (first remedy) is rejected, one
+   collection reports 1 for both limiters *)
+Definition overlap_example : case_overlap :=
+  let ug : str := [117; 110; 103; 114; 111; 117; 112; 101; 100; 76; 105; 109; 105; 116] in
+  mk_overlap 1000000000100000000
+    [mk_remedy [114; 49] 1 1 0 false 0 None; mk_remedy [114; 50] 1 1 0 false 0 None]
+    [mk_okey 0%nat []; mk_okey 1%nat []]
+    [mk_oreq 0%nat false false true; mk_oreq 1%nat false false false; mk_oreq 0%nat false false false]
+    [([] : list nat)]
+    [OStart 0%nat; OSet 500000000; OStart 1%nat; ORelease 0%nat; OStart 2%nat; OCollect 0%nat]
+    (map enc_status [[2; -1; -1; -1]; [2; -1; -1; -1]; [2; 3; -1; -1]; [3; 3; -1; -1];
+                     [3; 3; 3; -1]; [3; 3; 3; 3]])
+    [0; 0; 429]
+    [[mk_ocnt [114; 49] ug 1; mk_ocnt [114; 50] ug 1]].
